@@ -2,5 +2,6 @@
 package all
 
 import (
+	_ "verif/worlds/reg"
 	_ "verif/worlds/smoke"
 )
